@@ -187,6 +187,17 @@ func (c *Counter) Add(n int64) {
 			return
 
 		case !state.havePtr():
+			if state.readers() > 0 {
+				// Readers that registered before havePtr was cleared are still
+				// draining. Taking the lock now would overwrite their count; the
+				// last of them upgrades to the lock and flushes extra for us
+				// (see releaseReader).
+				if !c.state.update(&state, state.addExtra(uint64(n))) {
+					continue
+				}
+				debugPrintf("Add %q += %d: noptr, readers draining extra=%d\n", c.name, n, state.extra())
+				return
+			}
 			if !c.state.update(&state, state.addExtra(uint64(n)).setLocked()) {
 				continue
 			}
